@@ -1318,6 +1318,9 @@ type tx struct {
 	// current transaction context.
 	tx    *sqlclient.TxClient
 	txrrw migrate.RevisionReadWriter
+	// effective transaction mode of the file being executed
+	// (the global mode, unless overridden by a file directive).
+	fileMode string
 }
 
 // driverFor returns the migrate.Driver to use to execute migration statements.
@@ -1331,6 +1334,7 @@ func (tx *tx) driverFor(ctx context.Context, f migrate.File) (migrate.Driver, mi
 		return nil, nil, err
 	}
 	verifhook.At("driver_for", "v", f.Version(), "mode", mode, "intx", tx.tx != nil)
+	tx.fileMode = mode
 	switch mode {
 	case txModeNone:
 		return tx.c.Driver, tx.rrw, nil
@@ -1382,7 +1386,7 @@ func (tx *tx) mayRollback(err error) error {
 // mayCommit may commit a transaction depending on the given transaction mode.
 func (tx *tx) mayCommit() error {
 	// Only commit if each file is wrapped in a transaction.
-	if tx.tx != nil && !tx.dryRun && tx.mode == txModeFile {
+	if tx.tx != nil && !tx.dryRun && tx.fileMode == txModeFile {
 		return tx.commit()
 	}
 	return nil
